@@ -6,7 +6,7 @@ import sys, os, math, copy
 sys.path.insert(0, os.path.dirname(__file__))
 from common import *
 
-CALC = {0: 'vg', 1: 'cov', 2: 'covg', 3: 'mado', 5: 'poisson', 9: 'covnc', 10: 'order4'}
+CALC = {0: 'vg', 1: 'cov', 2: 'covg', 3: 'mado', 4: 'rodo', 5: 'poisson', 9: 'covnc', 10: 'order4'}
 ASYM = (1, 2, 9)
 TOLANGS = [0, 10, 22.5, 30, 45, 60, 90]
 F = Fraction
@@ -49,9 +49,9 @@ def gen_case(rng, quick, psmin_of, family=None):
     ndim = rng.choice([1, 2, 2, 2, 3])
     if quick: n = rng.choice([3, 5, 8, 12, 20, 40, 40, 80])
     else: n = rng.choices([3, 5, 8, 12, 20, 40, 80, 150, 300], [8, 8, 10, 12, 16, 20, 18, 5, 2])[0]
-    fam = family or rng.choices(['vg', 'cov', 'covnc', 'mado', 'order4', 'poisson', 'covg', 'bysample', 'bysample2dir', 'dates'],
-                                [34, 18, 10, 10, 5, 5, 5, 5, 2, 8])[0]
-    calc = {'vg': 0, 'cov': 1, 'covnc': 9, 'mado': 3, 'order4': 10, 'poisson': 5, 'covg': 2, 'bysample': rng.choice([0, 1, 3]),
+    fam = family or rng.choices(['vg', 'cov', 'covnc', 'mado', 'rodo', 'order4', 'poisson', 'covg', 'bysample', 'bysample2dir', 'dates'],
+                                [32, 18, 10, 8, 5, 5, 5, 5, 5, 2, 8])[0]
+    calc = {'vg': 0, 'cov': 1, 'covnc': 9, 'mado': 3, 'rodo': 4, 'order4': 10, 'poisson': 5, 'covg': 2, 'bysample': rng.choice([0, 1, 3]),
             'bysample2dir': rng.choice([0, 2]), 'dates': 0}[fam]
     flag_sample = 1 if fam in ('bysample', 'bysample2dir') else 0
     if fam in ('covg', 'bysample', 'bysample2dir'): n = min(n, 40)      # rational sums with unrelated denominators: keep the model fast
@@ -74,6 +74,13 @@ def gen_case(rng, quick, psmin_of, family=None):
     dirs = [gen_dir(rng, ndim, psmin_of, quick) for _ in range(rng.choice([1, 1, 2, 3]))]
     if fam == 'bysample2dir':     # two directions of equal size (regression case of the stale direction index of the by-sample algorithm)
         dirs = [gen_dir(rng, ndim, psmin_of, quick) for _ in range(2)]; dirs[1][0] = dirs[0][0]
+    # irregular lags: increasing breaks b_0 < .. < b_npas (lag k = ]b_k, b_{k+1}])
+    if fam in ('vg', 'cov', 'covnc', 'mado', 'order4') and rng.random() < .2:
+        for d in dirs:
+            npas = min(d[0], 6); d[0] = npas
+            b = [rng.choice([F(0), F(0), F(1, 2)])]
+            for _ in range(npas): b.append(b[-1] + rng.choice([F(1, 2), F(1), F(3, 2), F(3, 4)]))
+            d.append([dy(v) for v in b])
     dates = []
     if hasDate:
         # either an unbounded interval (no date checker, but the date-mode loop) or a real one
@@ -156,6 +163,7 @@ def generic_key(c, idir):
     if c[4][1]: feats.append('weights')
     if c[7]: feats.append('dates')
     if c[3]: feats.append('bysample')
+    if len(d) > 9: feats.append('breaks')
     if case_has_na(c): feats.append('na')
     return 'impl-vs-spec:%s:%s' % (CALC[c[2]], '+'.join(feats) or 'plain')
 
@@ -255,7 +263,7 @@ class Engine:
                 elif d_im is not None:
                     vs.append({'status': 'drift', 'detail': d_im, 'key': 'model-drift:computeFromDb:' + CALC[c[2]], 'impl': ib})
                 else:
-                    vs.append({'status': 'ok', 'impl': ib})
+                    vs.append({'status': 'ok', 'impl': ib, 'spec': sb})
             out.append(vs)
         return out
 
@@ -373,7 +381,7 @@ def gen_grid(rng, quick):
         g = [rng.randint(-2, 2) for _ in range(ndim)]
         if any(g) and math.gcd(*[abs(v) for v in g] + [0]) == 1: break
     npas = rng.randint(2, 6)
-    kind1 = [1, calc, nx, [dy(v) for v in dx], [dy(v) for v in x0], nvar, cells, int(hasSel), npas, g]
+    kind1 = [1, calc, nx, [dy(v) for v in dx], [dy(v) for v in x0], nvar, cells, int(hasSel), [[npas, g]], 0]
     # the same data as an ordinary point set, same direction, zero angular tolerance: the model covers the general algorithm
     ss = []
     for i in range(n):
@@ -434,7 +442,7 @@ def run(ctx):
         if sq * sq != dp2.numerator * dp2.denominator: continue     # lag length must be an exact double for the point-set twin
         dpas = F(sq, dp2.denominator)
         c = [0, len(codir), k1[1], 0, [k1[7], 0, 0, k1[5]], ss,
-             [[k1[8], dy(dpas), dy(F(1, 4)), dy(F(0)), dy(psmin_of[0]), [dy(v) for v in codir], [], [], 0]], [], 1]
+             [[k1[8][0][0], dy(dpas), dy(F(1, 4)), dy(F(0)), dy(psmin_of[0]), [dy(v) for v in codir], [], [], 0]], [], 1]
         cases.append(c); meta.append({'fam': 'gridtwin'}); ctx.dist('family_gridtwin')
         grids.append((k1, len(cases) - 1))
 
@@ -509,34 +517,132 @@ def run(ctx):
             if rv == 'new': found_input = True
     ctx.cov['metamorphic_comparisons'] = nmeta
 
-    # ... and as a DbGrid through the grid-specialised algorithm, compared with the general algorithm on impl
-    if grids:
-        gf = write_cases(ctx, 'grid', [g[0] for g in grids])
-        _, gi = run_impl(ctx, exe, gf)
-        for k, (k1, ci) in enumerate(grids):
+    def blocks_of(r): return [tuple([fl(undy(v)) for v in blk[j]] for j in range(4)) for blk in r]
+    def mblocks_of(m): return [[cell_of_model(x) for x in blk] for blk in m]
+    def ext_violation(key, text, case):
+        nonlocal found_input, ndis
+        ndis += 1
+        if key in reported: return
+        reported.add(key)
+        if ctx.violation(key, text, {'case': sx_str(case), 'how': 'one line of a case file for build/harness/C12 and build/ocaml/C12/runner'}) == 'new': found_input = True
+
+    # ... and as a DbGrid through the grid-specialised algorithm: impl against the model of _calculateOnGridSolution, against the
+    # pairwise definition evaluated on the point-set twin, and against the general algorithm of the implementation
+    extra_grid = []
+    for i in range(6 if quick else 60):      # several directions at once, non primitive increments allowed (no twin)
+        k1, _, _, _ = gen_grid(rng, quick)
+        nd = len(k1[2])
+        k1[8] = [[rng.randint(2, 5), [rng.randint(-2, 2) for _ in range(nd)]] for _ in range(rng.choice([1, 2, 3]))]
+        k1[8] = [gd for gd in k1[8] if any(gd[1])] or [[3, [1] + [0] * (nd - 1)]]
+        extra_grid.append(k1)
+    gcases = [g[0] for g in grids] + extra_grid
+    if gcases:
+        gi, gm = eng.run('grid', gcases)
+        for k, k1 in enumerate(gcases):
             r = gi[k] if k < len(gi) else None
-            ctx.count('grid' + sx_str(k1)[:2000])
+            ctx.count('grid' + sx_str(k1)[:2000]); ctx.dist('family_grid')
             if r is None or (r and isinstance(r[0], int)):
-                if ctx.violation('crash:grid', 'grid variogram crashed / failed', {'case': sx_str(k1)}) == 'new': found_input = True
-                continue
-            gblk = [tuple([fl(undy(v)) for v in blk[j]] for j in range(4)) for blk in r[0]]
-            eblk = [tuple([fl(undy(v)) for v in blk[j]] for j in range(4)) for blk in r[1]]
-            d = cmp_impl_impl(gblk, eblk, 'grid-vs-general')
+                ext_violation('crash:calculateOnGrid:' + CALC[k1[1]], 'grid variogram crashed / failed (%r)' % (r,), k1); continue
+            for idir in range(len(k1[8])):
+                gblk = blocks_of(r[idir])
+                d = cmp_blocks(gblk, mblocks_of(gm[k][idir]))
+                tw = vs[grids[k][1]][0] if k < len(grids) else None
+                dspec = None
+                if tw is not None and tw['status'] == 'ok':
+                    dspec = cmp_blocks(gblk, tw['spec'])
+                    d2 = cmp_impl_impl(gblk, tw['impl'], 'grid-vs-general')
+                    if d2 is not None:
+                        ext_violation('calculateOnGridSolution:differs-from-general:' + CALC[k1[1]],
+                                      'grid algorithm and general algorithm disagree on the same gridded data: ' + d2, k1)
+                if dspec is not None:
+                    ext_violation('calculateOnGridSolution:' + CALC[k1[1]], 'grid algorithm differs from the pairwise definition: ' + dspec, k1)
+                elif d is not None:
+                    if tw is not None and tw['status'] == 'ok':
+                        if ctx.violation('model-drift:calculateOnGridSolution', 'model of the grid algorithm and implementation disagree (%s) but the implementation '
+                                         'agrees with the pairwise definition' % d, {'case': sx_str(k1)}, found_input=False) == 'new': pass
+                    else:
+                        ext_violation('calculateOnGridSolution:' + CALC[k1[1]], 'grid algorithm differs from its model (no point-set twin for this direction): ' + d, k1)
+
+    # covariogram and generalised variograms on a grid
+    special = []
+    for i in range(2 if quick else 10):
+        k1, _, _, _ = gen_grid(rng, quick); k1[1] = 2; special.append(('covg', k1))
+    for i in range(3 if quick else 15):
+        k1, _, _, _ = gen_grid(rng, quick); k1[1] = 0; k1[5] = 1
+        for cl in k1[6]: cl[1] = cl[1][:1]
+        k1[9] = rng.choice([1, 2, 3]); k1[8][0][0] = rng.randint(2, 4)
+        if i % 3 == 2: k1[8] = k1[8] + [[k1[8][0][0], list(reversed(k1[8][0][1]))]]
+        k1[8] = [gd for gd in k1[8] if any(gd[1])]
+        special.append(('general%d' % k1[9], k1))
+    si, sm = eng.run('gridspecial', [c for _, c in special])
+    for k, (nm, k1) in enumerate(special):
+        r = si[k] if k < len(si) else None
+        ctx.count('gridspecial' + sx_str(k1)[:2000]); ctx.dist('family_grid_' + nm)
+        if r is None or (r and isinstance(r[0], int)):
+            if nm == 'covg':
+                ext_violation('calculateOnGrid:covariogram-without-weight-locator',
+                              'Vario::computeFromDb(COVARIOGRAM) on a DbGrid without weight locator kills the process: _calculateOnGrid calls '
+                              'getUIDByLocator(ELoc::W, 0) which indexes an empty locator table', k1)
+            else:
+                ext_violation('setCalcul:generalized-variogram-aborts',
+                              'Vario::computeFromDb(GENERAL%d) exits the process (messageAbort): AVario::setCalcul has no case for the generalised variograms' % k1[9], k1)
+            continue
+        for idir in range(len(k1[8])):
+            d = cmp_blocks(blocks_of(r[idir]), mblocks_of(sm[k][idir]))
             if d is not None:
-                ndis += 1
-                key = 'calculateOnGridSolution:differs-from-general:' + CALC[k1[1]]
-                if key not in reported:
-                    reported.add(key)
-                    ctx.violation(key, 'grid algorithm and general algorithm disagree on the same gridded data: ' + d, {'case': sx_str(k1)})
-                    found_input = True
-            # the general result computed inside the grid harness must be the one of the point-set twin
-            tw = vs[ci][0]
-            if tw['status'] not in ('tie', 'crash'):
-                d2 = cmp_impl_impl(eblk, tw['impl'], 'grid-db-vs-point-db')
-                if d2 is not None and 'grid-twin' not in reported:
-                    reported.add('grid-twin'); ndis += 1
-                    ctx.violation('computeFromDb:grid-db-vs-point-db', 'general algorithm gives different results on a DbGrid and on the same points in a Db: ' + d2, {'case': sx_str(k1)})
-                    found_input = True
+                key = ('calculateOnGridSolution:covg' if nm == 'covg' else
+                       ('calculateGenOnGridSolution:IDIRLOC-not-set' if len(k1[8]) > 1 else 'calculateGenOnGridSolution:' + nm))
+                ext_violation(key, 'grid %s differs from its model: %s' % (nm, d), k1)
+
+    # variogram maps and variogram clouds
+    vm = []
+    for i in range(10 if quick else 120):
+        ndim = rng.choice([2, 2, 3])
+        nx = [rng.randint(2, 5 if ndim == 2 else 3) for _ in range(ndim)]
+        nvar = rng.choice([1, 2]); hasSel = rng.random() < .4
+        n = 1
+        for v in nx: n *= v
+        cells = [[1 if (not hasSel or rng.random() < .8) else 0, [([] if rng.random() < .1 else dy(F(rng.randint(-9, 9)))) for _ in range(nvar)]] for _ in range(n)]
+        vm.append([3, rng.choice([0, 0, 3, 10]), nx, nvar, cells, int(hasSel), [rng.randint(1, 3) for _ in range(ndim)]])
+    for i in range(10 if quick else 120):
+        ndim = rng.choice([2, 2, 3])
+        n = rng.choice([3, 6, 12, 25])
+        nvar = rng.choice([1, 2]); hasSel = rng.random() < .4; hasW = rng.random() < .3
+        pts = gen_points(rng, ndim, n, rng.choice(['lattice', 'dup', 'columns', 'jitter']))
+        ss = [[[dy(v) for v in pts[k]], 1 if (not hasSel or rng.random() < .75) else 0, dy(rng.choice([F(1, 2), 1, 2, None])) if hasW else [], [],
+               [([] if rng.random() < .1 else dy(F(rng.randint(-9, 9)))) for _ in range(nvar)]] for k in range(n)]
+        vm.append([4, rng.choice([0, 0, 3, 10]), ndim, nvar, int(hasSel), int(hasW), ss, [rng.randint(1, 3) for _ in range(ndim)],
+                   [dy(rng.choice([F(1), F(2), F(1, 2), F(4)])) for _ in range(ndim)]])
+    for i in range(10 if quick else 120):
+        ndim = rng.choice([1, 2, 2, 3])
+        n = rng.choice([3, 6, 12, 25]); hasSel = rng.random() < .4
+        pts = gen_points(rng, ndim, n, rng.choice(['lattice', 'dup', 'jitter']))
+        ss = [[[dy(v) for v in pts[k]], 1 if (not hasSel or rng.random() < .75) else 0, [], [], [([] if rng.random() < .1 else dy(F(rng.randint(-9, 9))))]] for k in range(n)]
+        d = gen_dir(rng, ndim, psmin_of, quick)
+        vm.append([5, ndim, int(hasSel), ss, d, rng.randint(2, 6), rng.randint(2, 5), dy(rng.choice([F(1), F(2), F(1, 2)])), dy(rng.choice([F(4), F(16), F(1)]))])
+    vi, vmo = eng.run('vmap', vm)
+    for k, c in enumerate(vm):
+        r = vi[k] if k < len(vi) else None
+        what = {3: 'db_vmap:grid', 4: 'db_vmap:points', 5: 'db_vcloud'}[c[0]]
+        ctx.count(what + sx_str(c)[:2000]); ctx.dist('family_' + what.replace(':', '_'))
+        if r is None or (r and isinstance(r[0], int)):
+            ext_violation('crash:' + what, '%s crashed / failed (%r)' % (what, r), c); continue
+        if c[0] == 5:
+            # a pair decision close to a cell boundary along the distance axis: decided by the model, not compared
+            if vmo[k][0]: ctx.cov['tie_excluded'] += 1; continue
+            im = [0 if v == [] else int(undy(v)) for v in r[0]]
+            if im != vmo[k][1]:
+                ext_violation(what, 'counts per cell differ from the pair-by-pair definition: impl %r, expected %r' % (im, vmo[k][1]), c)
+            continue
+        d = None
+        for b, (ib, mb) in enumerate(zip(r, vmo[k])):
+            nb = [fl(undy(v)) for v in ib[0]]; var = [fl(undy(v)) for v in ib[1]]
+            for q, mc in enumerate(mb):
+                msw, _, mgg = cell_of_model(mc)
+                if nb[q] is None or abs(nb[q] - float(msw)) > TOL * (1 + abs(float(msw))): d = 'varpair %d cell %d: Nb impl=%r expected=%r' % (b, q, nb[q], float(msw)); break
+                if not in_iv(var[q], mgg): d = 'varpair %d cell %d: value impl=%r expected=%s' % (b, q, var[q], mgg and float(mgg[0])); break
+            if d: break
+        if d is not None: ext_violation(what + ':' + CALC[c[1]], '%s differs from the pair-by-pair definition: %s' % (what, d), c)
 
     # memory-safety probe of the by-sample algorithm, in a process of its own: two directions with 2 and 20 lags.
     # _setResult addresses the arrays of direction IDIRLOC (left at 0) with the lag ranks of the second direction.
